@@ -65,7 +65,8 @@ def strategy(tier):
             false = list(range(1, ncond + 1))
         else:
             false = draw(st.lists(st.integers(1, max(1, ncond)), max_size=4, unique=True))
-        return {'kind': 'generated', 'spec': spec, 'ops': ops, 'false': false}
+        return {'kind': 'generated', 'spec': spec, 'ops': ops, 'false': false,
+                'twin': draw(st.sampled_from([0, 0, 0, 1, 2, 3]))}
 
     @st.composite
     def shipped(draw):
@@ -155,6 +156,20 @@ def run_generated(spec, ops, cv, ignore):
 def oracle_generated(case):
     from ..cli import sha
     spec = probes.instrument(case['spec'], contracts=True)
+    if case.get('twin'):
+        # a guard and a (true) condition whose texts differ only by blanks inside a string
+        # literal / by the case of a literal: different expressions with different values
+        ga, ca = [("len('x  y') == 3", "len('x y') == 3"),
+                  ("'ab' == 'Ab'", "'ab' == 'ab'"),
+                  ("len('x y') == 3 ", "len('x y') == 3")][case['twin'] - 1]
+        cand = [t for t in spec['transitions'] if not t.get('tguard')]
+        owners = [x for x in spec['states'] if x['kind'] not in ('shallow', 'deep')]
+        if cand and owners:
+            t_ = cand[len(cand) // 2]
+            t_['guard'] = ga
+            for x in (owners[0], owners[len(owners) // 2]):
+                x['inv'] = list(x.get('inv') or []) + [ca]
+                x['pre'] = list(x.get('pre') or []) + [ca]
     ncond = sum(len(o.get('c_' + k) or []) for o in spec['states'] + spec['transitions']
                 for k in ('pre', 'post', 'inv'))
     cv_true = {c: True for c in range(1, ncond + 1)}
